@@ -358,6 +358,59 @@ def calibrate():
     return {"meminfo_lines_roundtripped": len(items), "zoneinfo_low_lines": len(lows)}
 
 
+def live_copy_tier(tier, seed, stats):
+    """The live /proc/{meminfo,vmstat,zoneinfo} copied to a directory that is
+    handed to psutil through the public PROCFS_PATH (real open(), no
+    interposition); compared with the model applied to the same bytes."""
+    import os
+    import shutil
+    import tempfile
+
+    import psutil
+
+    d = tempfile.mkdtemp(prefix="psv-c08-", dir=os.environ.get("VERIF_SCRATCH"))
+    try:
+        for name in ("meminfo", "vmstat", "zoneinfo"):
+            shutil.copyfile("/proc/" + name, os.path.join(d, name))
+        items = []
+        with open(os.path.join(d, "meminfo")) as f:
+            for ln in f:
+                name, rest = ln.split(":", 1)
+                items.append((name, int(rest.split()[0])))
+        zones = []
+        with open(os.path.join(d, "zoneinfo")) as f:
+            for ln in f:
+                if ln.strip().startswith("low"):
+                    zones.append(("z", 0, int(ln.split()[1]), 0))
+        variants = [("full", items, zones)]
+        # the same host without MemAvailable (kernel < 3.14): the documented fallback
+        variants.append(("no-MemAvailable", [x for x in items if x[0] != "MemAvailable"], zones))
+        for vname, its, zs in variants:
+            with open(os.path.join(d, "meminfo"), "w") as f:
+                f.write(render_meminfo(its).decode())
+            old = psutil.PROCFS_PATH
+            psutil.PROCFS_PATH = d
+            try:
+                with warnings.catch_warnings():
+                    warnings.simplefilter("ignore")
+                    vm = psutil.virtual_memory()
+                    sw = psutil.swap_memory()
+            finally:
+                psutil.PROCFS_PATH = old
+            exp, pct, _missing, _an, branches = model_vm(its, zs)
+            case = {"live_copy": vname}
+            bad = [k_ for k_, v in exp.items() if getattr(vm, k_) != v]
+            m = dict(its)
+            if bad or abs(Fraction(vm.percent) - pct) > Fraction(1, 20) + Fraction(1, 10**6) \
+                    or sw.total != m.get("SwapTotal", 0) * 1024 or sw.free != m.get("SwapFree", 0) * 1024:
+                stats.fail(case, Violation("live-copy", f"{vname}: {vm} / {sw}; model {exp} differs in {bad}"))
+                continue
+            stats.record(case, Result(["live-copy"], "live-copy|" + vname + "|" + ",".join(sorted(branches))),
+                         keep_sample=False)
+    finally:
+        shutil.rmtree(d, ignore_errors=True)
+
+
 PROP = Property(
     id="C08",
     level="exploration",
@@ -372,6 +425,7 @@ PROP = Property(
     run_case=run_case,
     budgets={"quick": 16000, "thorough": 400000},
     calibrate=calibrate,
+    extra_tiers=[("live-copy", live_copy_tier)],
     assumptions=[
         "meminfo has no blank lines; values are kB integers <= 2^50 "
         "(so psutil's float halving in the fallback is exact)",
